@@ -152,7 +152,7 @@ class Pool:
 
 def load_known():
     p = os.path.join(VERIF, "known_findings.json")
-    if not os.path.exists(p):
+    if not os.path.exists(p) or os.environ.get("DSIM_IGNORE_KNOWN"):  # the latter only to (re)generate corpus replays
         return {"known": [], "fixed": []}
     return json.load(open(p))
 
